@@ -10,7 +10,7 @@ TOLERANCE = 'chain closure / reference positions 1e-12..1e-9 of the object size 
 RULE = ('Equal wires: n in NSET x 5 lengths x 3 oblique directions. Tapered wires: n in NSET(>=2) x lengths '
         '{0.25,1,7,31,1000} x radii {1e-5,1e-3,0.01L,0.3L} x ends {1,2,both} x 7 (min,max) combinations - every '
         'combination the constructor accepts (assertion rejections and documented fall-backs to equal segments counted '
-        'separately). Arcs: 3 radii x 12 angle pairs (negative, >180 deg spans) x n. Helices: +-length x +-turn length x '
+        'separately). Arcs: 3 radii x 18 angle pairs (negative, >180 deg spans) x n = 3..64,100,122,197,200 (thorough 3..200). Helices: +-length x +-turn length x '
         '4 radius sets x n. Transformations through main(): all sequences of <=2 (thorough 3) from {3 rotations, '
         'translation, scale} x tagged/untagged on wire, tapered wire, arc and helix, against the harness composition. '
         'NSET quick = {1..12,17,33,64,100,200}, thorough = 1..200. State = (object kind, parameters); transition = one '
@@ -28,7 +28,8 @@ def bounds(tier, seed):
 
 
 MINMAX = [(None, None), (0.01, None), (None, 0.2), (0.01, 0.2), (0.05, 0.06), (0.0, None), (0.002, 0.5)]
-ANGS = [(0., 90.), (0., 360.), (30., -100.), (-45., 45.), (10., 200.), (350., 20.), (-170., 190.), (90., 0.), (0., 1.), (123.4, 321.), (-360., 0.), (180., 0.)]
+ANGS = [(0., 90.), (0., 360.), (30., -100.), (-45., 45.), (10., 200.), (350., 20.), (-170., 190.), (90., 0.), (0., 1.), (123.4, 321.), (-360., 0.), (180., 0.),
+        (30., 150.), (200., -20.), (0., 180.), (10., 100.), (0.1, 0.7), (-33.3, 271.)]
 
 
 def cases(tier, seed):
@@ -45,7 +46,7 @@ def cases(tier, seed):
                 yield dict(kind='taper', L=L, r=r, tt=tt, dir=list(dirs[1]), ns=[n for n in ns if n >= 2], org=[3.5, -2.25, 1000.125])
     for radius in (0.05, 1., 300.):
         for a in ANGS:
-            yield dict(kind='arc', radius=radius, ang=list(a), ns=[n for n in ns if 3 <= n <= 60])
+            yield dict(kind='arc', radius=radius, ang=list(a), ns=(list(range(3, 65)) + [100, 122, 197, 200]) if tier == 'quick' else list(range(3, 201)))
     for sl, st in itertools.product((1, -1), repeat=2):
         for radii in ([0.1, 0.1], [0.1, 0.3], [0.1, 0.1, 0.02, 0.02], [0.2, 0.1, 0.05, 0.3]):
             for length, turn in ((1.12, 0.15), (0.3, 0.3), (0.5, 2.0)):
